@@ -1,7 +1,9 @@
-"""C01.pair (thorough): analytic leaf inverses undo the forward formula.  The forward term is
+"""C01.pair: analytic leaf inverses undo the forward formula.  The forward term is
 inverted symbolically by peeling its primitives in reverse with the pair table and the result is
 compared with the class's inverse term (exact in the rational fragment)."""
 from __future__ import annotations
+
+from fractions import Fraction
 
 from ..core import Report
 from ..eqterms import Inconclusive, equal, explain
@@ -136,3 +138,118 @@ def _leaky(prog, rep):
               "|y| >= tanh(max_val) mirrors |x| >= max_val",
               f"forward predicate {show(mt, 100)}, inverse predicate {show(mi, 100)}: the inverse threshold must be the "
               f"forward image of the forward threshold")
+
+
+# ------------------------------------------------------------------ spline: inverse is a root of the forward equation
+
+def rule_spline_root(prog: Program, rep: Report):
+    """Algebraic round trip for the rational-quadratic spline (in-bounds branch, one bin): substitute the
+    inverse formula xi(y) (with R := sqrt(D)) into the forward formula and reduce modulo R^2 = D; the result
+    must be identically y.  Exact polynomial arithmetic over Fractions."""
+    from ..eqterms import Inconclusive, Poly, Rat, to_rat
+    import verif.eqterms as _eq
+    from .c07 import abstract_spline, where_parts
+    from .spline import SPLINE, spline_method_term
+    rep.rule("C01.root", "rational-quadratic spline, in-bounds branch of one bin: transform(inverse(y)) == y as an exact "
+                         "algebraic identity - the inverse formula (with R = sqrt(b^2-4ac)) substituted into the forward "
+                         "formula reduces to y modulo R^2 = b^2-4ac; so the inverse solves the forward equation for every "
+                         "knot configuration (root selection and the clip are not part of the identity)", minimum=1)
+    c = prog.cls(SPLINE)
+    site = method_site(prog, c, "inverse")
+    tT, tI = spline_method_term(prog, "transform"), spline_method_term(prog, "inverse")
+    wt, wi = where_parts(tT), where_parts(tI)
+    if not wt or not wi:
+        rep.undecided("C01.root", site, "spline:root", "where-forms not recognised")
+        return
+    at, ai = abstract_spline(wt[1]), abstract_spline(wi[1])
+    if not at or not ai:
+        rep.undecided("C01.root", site, "spline:root", "bin lookup not recognised")
+        return
+
+    def unclip(t):
+        return dict(t[3])["a"] if t[0] == "call" and t[1] == ("ext", "jax.numpy.clip") else t
+    fT, fI = unclip(at[0]), unclip(ai[0])
+    XR, K = ("sym", "XR"), ("sym", "K")
+    xk, xk1 = ("sub", ("attr", SELF, "x_pos"), K), ("sub", ("attr", SELF, "x_pos"), mk_add((K, C(1))))
+    yk, yk1 = ("sub", ("attr", SELF, "y_pos"), K), ("sub", ("attr", SELF, "y_pos"), mk_add((K, C(1))))
+    Wd, Hd = mk_add((xk1, mk_neg(xk))), mk_add((yk1, mk_neg(yk)))
+    W, H, Rs, Ys = ("sym", "W"), ("sym", "H"), ("sym", "R"), ("sym", "Y")
+    sq = [s for s in walk(fI) if s[0] == "call" and s[1] == ("ext", "jax.numpy.sqrt")]
+    if len(sq) != 1:
+        rep.undecided("C01.root", site, "spline:root", f"expected one sqrt in the inverse formula, found {len(sq)}")
+        return
+    D = dict(sq[0][3])["a"]
+
+    def shrink(t0, xr_to):
+        t0 = subst(t0, lambda s2: Rs if same(s2, sq[0]) else None)   # first: the square root (matched on the original term)
+
+        def rw(s2):
+            if same(s2, Wd):
+                return W
+            if same(s2, Hd):
+                return H
+            if s2 == XR:
+                return xr_to
+            return None
+        return subst(t0, rw)
+    XI = ("sym", "XI")
+    x_of_y = shrink(fI, Ys)          # inverse value x as a term in Y and R
+    Dy = shrink(D, Ys)               # discriminant
+    fwd = shrink(subst(fT, lambda s2: mk_add((xk, mk_mul((Wd, XI)))) if s2 == XR else None), XR)  # forward in xi
+    atoms: dict = {}
+    old = _eq.BUDGET_LIMIT
+    try:
+        _eq._BUDGET[0] = 0
+        _eq.BUDGET_LIMIT = 4000000
+        kR, kXI, kY = key(Rs), key(XI), key(Ys)
+        for sym in (Rs, XI, Ys, W, H):
+            atoms.setdefault(key(sym), sym)
+        rx = to_rat(x_of_y, atoms)
+        rD = to_rat(Dy, atoms)
+        r_xk, r_W = to_rat(xk, atoms), to_rat(W, atoms)
+        # xi(y) = (x - x_k) / W ; it must have the shape 2c / (-b - R): a fraction whose denominator is linear in R
+        xi = (rx + Rat(Poly.const(-1)) * r_xk) * r_W.inv()
+        degs = {dict(m).get(kR, 0) for m in xi.d.t}
+        num_has_R = any(dict(m).get(kR, 0) for m in xi.n.t)
+        if degs - {0, 1} or num_has_R or 1 not in degs:
+            rep.undecided("C01.root", site, "spline:root", f"inverse is not of the form 2c/(-b - sqrt(D)): R-degrees in denominator {sorted(degs)}, R in numerator {num_has_R}; x(y) = {show(x_of_y, 300)}")
+            return
+        # xi = n / (d0 + d1 R)  with d1 free of R:  normalise to  2c / (-b - R):  divide by -d1
+        d0 = Poly({m: v for m, v in xi.d.t.items() if not dict(m).get(kR, 0)})
+        d1 = Poly({tuple(sorted((a0, e0) for a0, e0 in m if a0 != kR)): v for m, v in xi.d.t.items() if dict(m).get(kR, 0)})
+        minus_d1 = Rat(Poly.const(0) - d1)
+        bq = Rat(d0) * minus_d1.inv()            # -b - R = (d0 + d1 R)/(-d1)  =>  -b = d0/(-d1) ... b = -(d0/(-d1)) with sign below
+        b_ = Rat(Poly.const(-1)) * (Rat(d0) * minus_d1.inv()) * Rat(Poly.const(-1))  # b = d0/d1 ... computed explicitly next
+        b_ = Rat(d0) * Rat(d1).inv()             # from d0 + d1 R = -d1 (-b - R)  =>  d0 = d1 b
+        c_ = Rat(xi.n) * minus_d1.inv() * Rat(Poly.const(Fraction(1, 2)))   # n / (-d1) = 2c
+        a_ = (b_ * b_ + Rat(Poly.const(-1)) * rD) * (Rat(Poly.const(4)) * c_).inv()
+        # forward equation in xi: F(xi) = Y  <=>  Nf - Y Df = 0, a polynomial of degree <= 2 in xi
+        rf = to_rat(fwd, atoms)
+        eqn = rf.n - Poly.atom(kY) * rf.d
+        coef = {0: Poly.const(0), 1: Poly.const(0), 2: Poly.const(0)}
+        bad_deg = False
+        for m, v in eqn.t.items():
+            md = dict(m)
+            e = md.pop(kXI, 0)
+            if e > 2:
+                bad_deg = True
+                break
+            coef[e] = coef[e] + Poly({tuple(sorted(md.items())): v})
+        if bad_deg or coef[2].is_zero():
+            rep.undecided("C01.root", site, "spline:root", "forward equation is not quadratic in xi")
+            return
+        A2, A1, A0 = Rat(coef[2]), Rat(coef[1]), Rat(coef[0])
+
+        def zero(r: Rat):
+            return r.n.is_zero()
+        neg = Rat(Poly.const(-1))
+        ok = zero(A2 * b_ + neg * A1 * a_) and zero(A2 * c_ + neg * A0 * a_) and zero(A1 * c_ + neg * A0 * b_)
+        rep.check(ok, "C01.root", site, "RationalQuadraticSpline:transform(inverse(y))==y (in-bounds, one bin)",
+                  "the quadratic a xi^2 + b xi + c solved by the inverse is proportional to the forward equation "
+                  "F(xi) - y = 0, and xi = 2c/(-b - sqrt(b^2-4ac)) is one of its roots",
+                  "the quadratic solved by the inverse formula is not the forward equation of the in-bounds transform: "
+                  "inverse(transform(x)) != x inside the interval")
+    except Inconclusive as e:
+        rep.undecided("C01.root", site, "spline:root", str(e))
+    finally:
+        _eq.BUDGET_LIMIT = old
